@@ -92,22 +92,23 @@ Fixpoint scan_num (s : text) (acc nd : Z) (prev_us : bool) : option (Z * Z * tex
               else if prev_us then None else Some (acc, nd, s)
   | [] => if prev_us then None else Some (acc, nd, [])
   end.
+Definition int_sign (s : text) : bool * text :=
+  match s with 45 :: r => (true, r) | 43 :: r => (false, r) | _ => (false, s) end.
+Definition leading_underscore (s : text) : bool := match s with 95 :: _ => true | _ => false end.
 Definition py_int_of_text (s0 : text) : res Z :=
   let s := skip is_int_space (List.map int_xform s0) in
-  let '(neg, s) := match s with 45 :: r => (true, r) | 43 :: r => (false, r) | _ => (false, s) end in
-  match s with
-  | 95 :: _ => Raise EValue
-  | _ => match scan_num s 0 0 false with
-         | None => Raise EValue
-         | Some (v, nd, rest) =>
-             if nd =? 0 then Raise EValue
-             else if int_max_str_digits <? nd then Raise EValue
-             else match skip is_int_space rest with
-                  | [] => Ok (if neg then - v else v)
-                  | _ => Raise EValue
-                  end
-         end
-  end.
+  let (neg, s) := int_sign s in
+  if leading_underscore s then Raise EValue
+  else match scan_num s 0 0 false with
+       | None => Raise EValue
+       | Some (v, nd, rest) =>
+           if nd =? 0 then Raise EValue
+           else if int_max_str_digits <? nd then Raise EValue
+           else match skip is_int_space rest with
+                | [] => Ok (if neg then - v else v)
+                | _ => Raise EValue
+                end
+       end.
 (* int(x) for a JSON value *)
 Definition py_int (v : json) : res Z :=
   match v with
